@@ -85,9 +85,8 @@ def aesInvTable : List Nat :=
    0xb1, 0x0d, 0xd6, 0xeb, 0xc6, 0x0e, 0xcf, 0xad, 0x08, 0x4e, 0xd7, 0xe3, 0x5d, 0x50, 0x1e, 0xb3,
    0x5b, 0x23, 0x38, 0x34, 0x68, 0x46, 0x03, 0x8c, 0xdd, 0x9c, 0x7d, 0xa0, 0xcd, 0x1a, 0x41, 0x1c]
 
-def aesInvArr : Array Nat := aesInvTable.toArray
-
-def aesInv (x : Nat) : Nat := aesInvArr.getD x 0
+/-- table look-up (bytes only; anything else gives 0) -/
+def aesInv (x : Nat) : Nat := aesInvTable.getD x 0
 
 /-- (V)GF2P8AFFINEQB / (V)GF2P8AFFINEINVQB on `vl` bytes: byte `j` of `x` is transformed with the qword of
     `m` at the same 64-bit position -/
